@@ -61,6 +61,22 @@ def stepC07 : List String → String
         | none => "ok"
         | some e => fmtErr e
     | _, _ => "bad-op"
+  | "orphan" :: depth :: _k :: _mut :: pre :: size :: special :: root :: txs =>
+    -- the block is delivered while its parent is unknown: ProcessBlock runs CheckBlockSanity BEFORE
+    -- the orphan handling, so a block that fails it never reaches the orphan pool; an accepted one
+    -- waits as an orphan and is connected when its ancestors arrive.
+    match nat? depth, hexBytes? root, parseTxs txs with
+    | some depth, some root, some txs =>
+      let verdict :=
+        if pre != "1" then "err pre"
+        else if txs.isEmpty then "err no-tx"
+        else if size != "1" then "err size"
+        else match blockSanityTx hashPair root txs (special == "1") with
+          | none => "ok"
+          | some e => fmtErr e
+      if verdict == "ok" then s!"first=orphan tip={depth} bound=1"
+      else s!"first={verdict.replace " " ":"} tip={depth - 1} bound=1"
+    | _, _, _ => "bad-op"
   | _ => "bad-op"
 
 def main : IO Unit := runPure stepC07
